@@ -255,6 +255,9 @@ def run(ctx):
              ("Equals", ("Ite", b, one_, zero_), zero_), ("Equals", ("Ite", ("And", b, c), x_, y_), x_), ("Equals", x_, y_),
              ("BVULT", u_, v_), ("BVSLE", u_, ("lit", 2, B2_)), ("Equals", ("BVSub", u_, v_), ("lit", 0, B2_)), ("LE", x_, x_),
              ("Equals", ("Plus", x_, zero_), y_)]
+    # Boolean atoms that are not relations: reads from arrays of Booleans (array symbol, store chain, array value with a formula inside)
+    ab_ = S("ab", ("ARRAY", INT, ("BOOL",)))
+    atoms += [("Select", ab_, x_), ("Select", ("Store", ab_, y_, b), x_), ("Select", ("Array", ("type", INT), ("And", b, c)), one_)]
     for at in atoms:
         shapes += [Shape(("Implies", at, a)), Shape(("Not", at)), Shape(("Iff", a, at)), Shape(("Ite", at, a, ("Not", a))),
                    Shape(("Or", ("Not", at), ("And", a, at)))]
